@@ -256,6 +256,32 @@ func scenSessMTU(r *Run) {
 			})
 		}
 	}
+	// SetNoDelay in mid-transfer, both directions of the switch (the minimum RTO
+	// follows the mode: 30 ms in no-delay mode, 100 ms otherwise)
+	if midway && t.Chance("mtu-nodelay", 300) {
+		n := 1 + t.Choose("mtu-nodelay", 4)
+		at := time.Duration(0)
+		for i := 0; i < n; i++ {
+			at += time.Duration(t.Skewed("mtu-nodelay", 0, 1500000)) * time.Microsecond
+			nd, iv, rs, nc := t.Choose("mtu-nodelay", 2), 10+t.Choose("mtu-nodelay", 90), t.Choose("mtu-nodelay", 3), t.Choose("mtu-nodelay", 2)
+			pickB := t.Chance("mtu-nodelay", 400)
+			s.At(at+5, "setnodelay", func() {
+				ep := x.A
+				if pickB && x.B != nil {
+					ep = x.B
+				}
+				if ep == nil || ep.CloseInvoked || ctl.Busy() {
+					return
+				}
+				s.L.Logf("call %s SetNoDelay(%d,%d,%d,%d)", ep.Name, nd, iv, rs, nc)
+				s.Stats.Probe("setnodelay-midway")
+				sess := ep.Sess
+				ctl.Do("SetNoDelay", func() any { sess.SetNoDelay(nd, iv, rs, nc); return nil }, func(any) {
+					ep.Cfg.SetNoDelay, ep.Cfg.NoDelay, ep.Cfg.Interval, ep.Cfg.Resend, ep.Cfg.NC = true, nd, iv, rs, nc
+				})
+			})
+		}
+	}
 	// OOB at the advertised maximum must fit the MTU as well
 	if fec && t.Chance(ms, 600) {
 		n := 1 + t.Choose(ms, 5)
